@@ -128,7 +128,7 @@ class CompositeModel:
             y[:, self.bm] = f(y[:, self.bm], self.lo[self.bm], self.hi[self.bm], self.eps)
         return y
 
-    def fit(self, x, z_observed=None):
+    def fit(self, x, z_observed=None, well_conditioned_below=None):
         """Fit the whitening.  Any non-degenerate per-dimension affine map is a
         valid whitening (numpy uses the population std, torch the sample std),
         so when the image ``z_observed`` of the fitting data is known the
@@ -141,11 +141,19 @@ class CompositeModel:
                 self.mean = np.empty(y.shape[1])
                 self.std = np.empty(y.shape[1])
                 for j in range(y.shape[1]):
-                    zc = z[:, j] - z[:, j].mean()
+                    use = np.ones(len(y), bool)
+                    if well_conditioned_below is not None and self.bm[j]:
+                        # next to a bound the bounded map amplifies the rounding of x (float32: by 1/(u(1-u))): identify
+                        # the affine from the rows where y is well determined
+                        use = np.abs(y[:, j]) < well_conditioned_below
+                        if use.sum() < 3:
+                            use = np.ones(len(y), bool)
+                    zj, yj = z[use, j], y[use, j]
+                    zc = zj - zj.mean()
                     den = float(np.dot(zc, zc))
-                    slope = float(np.dot(zc, y[:, j] - y[:, j].mean()) / den) if den > 0 else 1.0
+                    slope = float(np.dot(zc, yj - yj.mean()) / den) if den > 0 else 1.0
                     self.std[j] = slope
-                    self.mean[j] = y[:, j].mean() - slope * z[:, j].mean()
+                    self.mean[j] = yj.mean() - slope * zj.mean()
             else:
                 self.mean = y.mean(axis=0)
                 self.std = y.std(axis=0)
